@@ -30,7 +30,7 @@ def main():
             meta = json.load(open(d + "/meta.json"))
             m = re.search(r"((?:integer|float|rational|base|macros)/(?:tests|examples)/[\w]+\.rs|tests/[\w]+\.rs)", meta["demo_path"])
             demo_path = m.group(1)
-            m = re.search(r"((?:RUSTFLAGS=(?:'[^']*'|\"[^\"]*\"|\S+)\s+)?cargo (?:\+nightly )?test [^&;|]+)", meta["demo_cmd"])
+            m = re.search(r"((?:RUSTFLAGS=(?:'[^']*'|\"[^\"]*\"|\S+)\s+)?cargo (?:\+nightly )?test [^&;|(]+)", meta["demo_cmd"])
             demo_cmd = m.group(1).strip()
             if "--offline" not in demo_cmd:
                 demo_cmd += " --offline"
